@@ -13,4 +13,21 @@ static int op_mul_view(int argc, tok_t *t, out_t *o) {
   else { mpz_init2(w, 1); mpz_mul(w, a, view); out_mpz(o, w); mpz_clear(w); }
   mpz_clear(a); return 0;
 }
-const opdef_t ops_extra[] = { {"mpz_mul_view", op_mul_view}, {0, 0} };
+/* mpz_pow_shape base e : r = base^e through mpz_pow_ui (mpz base) — for results too long to print: sign, bit length,
+   number of trailing zero bits, low and high 64 bits of the odd part.  The count of trailing zero bits of such a power
+   exceeds 2^32 when e * v2(base) does. */
+static int op_pow_shape(int argc, tok_t *t, out_t *o) {
+  if (argc != 2 || t[0].kind != T_NUM || t[1].kind != T_NUM || t[1].neg) return -1;
+  mpz_t b, r, odd; mpz_init(b); tok_mpz(b, &t[0]); mpz_init2(r, 1); mpz_init(odd);
+  unsigned long e = tok_ulong(&t[1]);
+  mpz_pow_ui(r, b, e);
+  if (mpz_sgn(r) == 0) { out_long(o, 0); mpz_clear(b); mpz_clear(r); mpz_clear(odd); return 0; }
+  unsigned long bits = mpz_sizeinbase(r, 2), tz = mpz_scan1(r, 0);
+  mpz_tdiv_q_2exp(odd, r, tz); mpz_abs(odd, odd);
+  unsigned long ob = bits - tz, lo = mpz_getlimbn(odd, 0), hi;
+  if (ob > 64) { mpz_tdiv_q_2exp(odd, odd, ob - 64); hi = mpz_getlimbn(odd, 0); } else hi = lo;
+  out_long(o, mpz_sgn(r)); out_ulong(o, bits); out_ulong(o, tz); out_ulong(o, lo); out_ulong(o, hi);
+  if (r->_mp_d[(r->_mp_size < 0 ? -r->_mp_size : r->_mp_size) - 1] == 0) out_err(o, "malformed");
+  mpz_clear(b); mpz_clear(r); mpz_clear(odd); return 0;
+}
+const opdef_t ops_extra[] = { {"mpz_mul_view", op_mul_view}, {"mpz_pow_shape", op_pow_shape}, {0, 0} };
